@@ -234,3 +234,10 @@ def test_fixed_C03_template_argument_shared_terminal():
     p = Lark('start: a{"k"}\na{x}: x b{x}\n!b{y}: y\n', parser='lalr')
     a, = p.parse('kk').children
     assert [getattr(c, 'data', None) for c in a.children] == ['b']      # the literal is filtered in a, kept in !b
+
+
+def test_fixed_C14_scan_start_hidden_in_ignored_span():
+    g = 'start: NAME "=" NUM ("/" NUM)?\nNAME: /[ab]/\nNUM: /[12]/\n%ignore /\\/\\/[^\\n]*/\n%ignore "\\n"\n'
+    for lexer in ('basic', 'contextual'):
+        p = Lark(g, parser='lalr', lexer=lexer)
+        assert [m.range for m in p.scan('//a=1\nb=2')] == [(2, 5), (6, 9)]
